@@ -16,6 +16,11 @@ int g_migrated;
 struct myth_thread PARENT, NEW;
 long STKBLOCK[64];                      /* the stack block handed out by the (separately proved, C12) stack allocator */
 #define STK_TOP ((void *)&STKBLOCK[62])
+/* custom data (the steal hint, myth_wsapi_get_hint_*) is carved from the top of the new stack: the initial stack pointer
+   is lowered by 16 + the size rounded to 16; the RECORD keeps naming the stack as the allocator handed it out */
+char CDATA[24]; size_t g_cd;
+#define CD_CARVE (g_cd ? (16 + (((g_cd + 15) >> 4) << 4)) : 0)
+#define STK_START ((void *)((char *)STK_TOP - CD_CARVE))
 
 int g_child_first, g_with_attr;
 myth_thread_attr_t ATTR;
@@ -28,7 +33,8 @@ size_t g_stack_req;
 int g_check_new_at_start;
 #define NEW_READY (NEW.status == MYTH_STATUS_READY && NEW.join_thread == 0 && NEW.env == &ENV && NEW.stack == STK_TOP && \
                    NEW.cancelled == 0 && NEW.cancel_enabled == 1 && NEW.tls->root == 0 && NEW.tls->pre_alloc_p == NEW.tls->pre_alloc_buf && \
-                   NEW.detached == ((g_with_attr && ATTR.detachstate) ? 1 : 0))
+                   NEW.detached == ((g_with_attr && ATTR.detachstate) ? 1 : 0) && \
+                   NEW.custom_data_size == g_cd && (g_cd == 0 || NEW.custom_data_ptr == (void *)((char *)STK_START + 16)))
 static void * verif_user_fn(void * a) {
   /* child-first creation runs the function at once, on the creator's worker: by then the record must be complete (a
      recycled record holds garbage from its previous life: every field the rest of the library reads must have been set) */
@@ -63,10 +69,10 @@ int ensure_init_contract(void) __CPROVER_requires(1) __CPROVER_assigns(g_ensure)
 
 /* context construction is C03's subject: here only who/when */
 void make_empty_contract(myth_context_t ctx, void * stack, size_t stacksize)
-  __CPROVER_requires(ctx == &NEW.context && stack == STK_TOP && g_ctx_kind == 0 && g_child_first)
+  __CPROVER_requires(ctx == &NEW.context && stack == STK_START && g_ctx_kind == 0 && g_child_first)
   __CPROVER_assigns(g_ctx_kind) __CPROVER_ensures(g_ctx_kind == 1);
 void make_voidcall_contract(myth_context_t ctx, void_func_t func, void * stack, size_t stacksize)
-  __CPROVER_requires(ctx == &NEW.context && stack == STK_TOP && g_ctx_kind == 0 && !g_child_first)
+  __CPROVER_requires(ctx == &NEW.context && stack == STK_START && g_ctx_kind == 0 && !g_child_first)
   __CPROVER_requires(func == myth_entry_point && "a parent-first thread starts in myth_entry_point")
   __CPROVER_assigns(g_ctx_kind) __CPROVER_ensures(g_ctx_kind == 2);
 
@@ -133,7 +139,9 @@ void h_create(void) {
   g_with_attr = nondet_bool(); g_check_new_at_start = 1;
   /* an attribute object prepared with the public functions only: attr_init's postcondition + setters */
   ATTR.stackaddr = 0; ATTR.stacksize = nondet_ulong(); ATTR.guardsize = nondet_ulong(); ATTR.detachstate = nondet_bool();
-  ATTR.child_first = nondet_bool(); ATTR.custom_data_size = 0; ATTR.custom_data = 0;
+  g_cd = nondet_bool() ? 0 : (nondet_bool() ? 8 : 24);
+  ATTR.child_first = nondet_bool(); ATTR.custom_data_size = g_cd; ATTR.custom_data = g_cd ? (void *)CDATA : 0;
+  if (!g_with_attr) g_cd = 0;
   g_child_first = g_with_attr ? ATTR.child_first : 1;
   _Bool with_id = nondet_bool();
   myth_thread_t id = 0;
